@@ -20,6 +20,7 @@ RULE = ('sets of 1-4 regions (rectangles, convex, concave U / L / comb, bow-ties
         'distinct = hash of the region/line set or (options, image) Region ids as a multi-orientation stage names them with three suffixed passes; pocket lines of self-touching outlines (make_valid reference); baselines bending back around a corner of the region\'s bounding box; notch-targeted simple-extractor pages. Integer-grid regions and lines; lines distributed again after the outlines of the same region objects were replaced.')
 RULE += ' Round 6: A 5000-cell table with 1000 lines (rare); outlines that do not cover their baseline; direction of the placed piece; inside lines below a notch whose outline ends exactly at a notch wall.'
 RULE += ' Round 7: Combs with a line that crosses two teeth and ends on the wall of the third; 2x2 specks crossed diagonally.'
+RULE += ' Round 8: Rows detected as chains of three fragments with every stroke covered by a placed line; rows resampled by the merge step (y values differing in the last bits).'
 ASSUMPTIONS = ['for invalid (self-touching) region polygons the code clips with the convex hull: only "inside the convex hull", "piece of the detected baseline" and id uniqueness are required there',
                'containment predicates use a 1e-6 buffer; "unchanged" = same point sequence (1e-6) for the baseline and equal shape for an outline that lies inside the region',
                'regions handed to the helper have unique ids']
